@@ -48,7 +48,8 @@ Definition op_source (o : op) : option nat :=
   | OMultiSelect i _ | OSort i _ _ | OShift i _ | ODedup i _ _ _ | OApply i _ _ | ODescribe i
   | OResample i _ _ _ | OGroupAgg i _ _ _ | OCsvRoundTrip i | OGroupby i _ | OToCSV i | ORow i _
   | OColumnNames i | ONrows i | ONcols i | OAgg i _ | OJoin _ i _ _ | OAdd i _ _
-  | OString i | OSelect i _ | OColAt i _ _ | OSeries i _ _ | OPlot _ i _ _ _ _ | OGroupbyOther i _ => Some i
+  | OString i | OSelect i _ | OColAt i _ _ | OSeries i _ _ | OPlot _ i _ _ _ _ | OGroupbyOther i _
+  | OIoFail i _ => Some i
   | OAppendRow i _ | ODropRow i _ | OFillNa i _ | ODropNa i | OAstype i _ _ | ODatetime i _ _
   | ORename i _ _ | OAddColumn i _ _ | ODropColumn i _ | OSetCell i _ _ _ | ODedupInplace i _ _ => Some i
   | OFromCSV _ => None
@@ -98,6 +99,21 @@ Fixpoint others_same (pre post : pool) (i : nat) (target : option nat) : bool :=
     && others_same pre' post' (S i) target
   end.
 Definition c02_local (pre : pool) (o : op) (post : pool) : bool := others_same pre post 0 (op_target o).
+
+(* C01 again: a frame the operation was not applied to, if it changed at all (through memory it shares with the
+   frame that was edited), must still be well formed and consist of whole rows of its former self *)
+Definition still_own_rows (a b : frame) : bool :=
+  (* (vm_compute evaluates the arguments of || eagerly: the expensive test is kept behind an if) *)
+  if frame_same a b then true else (wf_frame b && (let ra := rows a in forallb (fun r => row_in r ra) (rows b))).
+Fixpoint others_aligned (pre post : pool) (i : nat) (target : option nat) : bool :=
+  match pre, post with
+  | [], _ => true
+  | _ :: _, [] => true
+  | a :: pre', b :: post' =>
+    (match target with Some t => if Nat.eqb t i then true else still_own_rows a b | None => still_own_rows a b end)
+    && others_aligned pre' post' (S i) target
+  end.
+Definition c01_others_aligned (pre : pool) (o : op) (post : pool) : bool := others_aligned pre post 0 (op_target o).
 
 (* C20: no panic; an error leaves every frame as it was *)
 Definition c20_no_panic (io : out val) : bool := match io with Panic => false | _ => true end.
@@ -199,6 +215,7 @@ Definition check_step (O : oracles) (pre : pool) (s : stepobs) : list nat :=
   ++ (if negb ok_step || c01_frames_ok post then [] else [10%nat])
   ++ (if negb ok_step || c01_nrows_ok post (s_nrows s) then [] else [11%nat])
   ++ (if negb ok_step || c01_aligned pre o io post then [] else [12%nat])
+  ++ (if c01_others_aligned pre o post then [] else [13%nat])
   ++ (if c02_local pre o post then [] else [20%nat])
   ++ (if c20_no_panic io then [] else [30%nat])
   ++ (if c20_err_keeps pre io post then [] else [31%nat])
